@@ -50,6 +50,38 @@ RLt(a, b) == LET g == GCD(a[2], b[2]) IN a[1] * (b[2] \div g) < b[1] * (a[2] \di
 RZero == <<0, 1>>
 ROne == <<1, 1>>
 
+---------------------------------------------------------------------------
+(* Values the code can only produce as floats (division by a total weight, *)
+(* numpy linear algebra) are recorded in fixed point: <<m, FxScale, 0>>    *)
+(* stands for a number within FxTol/FxScale of m/FxScale.  The exact       *)
+(* oracle value <<n, d>> is compared with it WITHOUT rounding the oracle:  *)
+(* |n * FxScale - m * d| <= FxTol * d, in two-limb arithmetic because TLC  *)
+(* integers are 32 bit.                                                    *)
+FxScale == 1048576                 \* 2^20
+FxTol == 2
+LB == 32768                        \* limb base 2^15
+LB2 == 1073741824                  \* 2^30
+IsFx(v) == Len(v) = 3
+(* a * b for 0 <= a, b < 2^30 as <<hi, lo>> = hi * 2^30 + lo, 0 <= lo < 2^30 *)
+Mul2(a, b) ==
+  LET a1 == a \div LB  a0 == a % LB  b1 == b \div LB  b0 == b % LB
+      mid == a1 * b0 + a0 * b1
+      lof == a0 * b0 + (mid % LB) * LB
+  IN <<a1 * b1 + (mid \div LB) + (lof \div LB2), lof % LB2>>
+(* |x - y| <= t for two-limb x, y and 0 <= t < 2^29 *)
+Near2(x, y, t) ==
+  LET dh == x[1] - y[1]  dl == x[2] - y[2]
+  IN CASE dh = 0 -> Abs(dl) <= t
+       [] dh = 1 -> dl <= t - LB2
+       [] dh = -1 -> -dl <= t - LB2
+       [] OTHER -> FALSE
+FxInRange(want) == Abs(want[1]) < LB2 /\ want[2] < LB2 \div 8
+ApproxEq(want, m) ==
+  IF (want[1] < 0) # (m < 0) /\ want[1] # 0 /\ m # 0 THEN Abs(m) <= FxTol /\ FALSE
+  ELSE Near2(Mul2(Abs(want[1]), FxScale), Mul2(Abs(m), want[2]), FxTol * want[2])
+(* equality of an oracle rational with a recorded value (exact pair or fixed point) *)
+REq(want, have) == IF IsFx(have) THEN ApproxEq(want, have[1]) ELSE want = have
+
 Zero(sr) == CASE sr \in IntSR -> 0
               [] sr \in {"Rat", "MaxTimes"} -> RZero
               [] sr = "MaxPlus" -> <<0>>
@@ -88,6 +120,9 @@ Star(sr, a) ==
     [] sr = "Expect" -> LET ps == RInv(RSub(ROne, a[1])) IN <<ps, RMul(RMul(ps, a[2]), ps)>>
 
 IsZero(sr, a) == a = Zero(sr)
+
+(* recorded value `have' is the oracle value `want' (fixed-point tolerance for recorded floats) *)
+WEq(sr, want, have) == IF sr \in {"Rat", "MaxTimes"} THEN REq(want, have) ELSE want = have
 
 (* multiplicative inverse, fields only (and the positive part of MaxTimes) *)
 Inv(sr, a) == CASE sr \in {"Rat", "MaxTimes"} -> RInv(a)
